@@ -1,6 +1,6 @@
 // C06 - definitional equality used by the checker agrees with evaluation.
 // Oracles: the evaluator trace produced by the harness's step loop (whnf of a ground program must
-// be the literal it evaluates to; every term unifies with itself and with each of its reducts),
+// be the literal it evaluates to; every term unifies with itself, with itself behind solved holes, and with each of its reducts),
 // symmetry, and agreement of unify with equality of R-core normal forms on hole-free pairs.
 use crate::core::Nbe;
 use crate::eterm::{E, mirror, to_gram};
@@ -61,6 +61,31 @@ pub fn check_program(ctx: &mut Ctx, src: &str) {
             return;
         }
     }
+    // a solved hole is transparent: the same term with some subterms behind solved holes (written
+    // 0-3 binders further out) unifies with the plain term, both ways
+    let mut wr = Rng::for_case(hash_str(src), 7, 0);
+    let mut wrapped: Vec<E> = vec![];
+    for round in 0..3u32 {
+        let k = 1 + wr.usize(3);
+        let tw = crate::emut::wrap_solved(&t, &mut wr, k, 5000 + 10 * round, 0);
+        if tw == t {
+            continue;
+        }
+        for (x, y, dir) in [(&tw, &t, "wrapped-vs-plain"), (&t, &tw, "plain-vs-wrapped")] {
+            match gram_unify(x, y) {
+                Ok(true) => ctx.count("solved-hole-wrappings-unified"),
+                Ok(false) => {
+                    viol(ctx, "solved-hole-not-transparent:unify", &format!("unify is false for a term and the same term with subterms behind solved holes ({dir}): {}", clip(&tw.show(), 400)), src);
+                    return;
+                }
+                Err(p) => {
+                    viol(ctx, &format!("unify-panic@{}", panic_site(&p)), &p, src);
+                    return;
+                }
+            }
+        }
+        wrapped.push(tw);
+    }
     // reducts on the evaluation trace (only meaningful when the run terminates: a diverging
     // program has no normal form and unify may legitimately not return)
     let terminated = matches!(obs.run, Run::Value { .. });
@@ -106,6 +131,19 @@ pub fn check_program(ctx: &mut Ctx, src: &str) {
                     }
                 }
                 Err(p) => viol(ctx, &format!("whnf-panic@{}", panic_site(&p)), &p, src),
+            }
+            // and the same through solved holes
+            for tw in &wrapped {
+                let w = guard(|| {
+                    let g = to_gram(tw);
+                    let mut dc = vec![];
+                    mirror(&crate::normalizer::normalize_weak_head(&g, &mut dc)).zonk()
+                });
+                match w {
+                    Ok(w) if w == v => ctx.count("whnf-through-solved-holes"),
+                    Ok(w) => viol(ctx, "solved-hole-not-transparent:whnf", &format!("normalize_weak_head of the term with subterms behind solved holes gives {} but evaluation gives {}: {}", clip(&w.show(), 200), v.show(), clip(&tw.show(), 300)), src),
+                    Err(p) => viol(ctx, &format!("whnf-panic@{}", panic_site(&p)), &p, src),
+                }
             }
         }
     }
